@@ -94,7 +94,7 @@ let res_text (r : resolution) =
 type fail = { kind : string; detail : string; signature : string }
 
 (* runs one outbound sequence; returns first failure *)
-let run_out (h : harness) (kind : string) (ops : oop list) (desc : string) (dist : (string, int) Hashtbl.t) : fail option * int =
+let run_out ?(impl_only = 0) ?(model_state_after : ores option) (h : harness) (kind : string) (ops : oop list) (desc : string) (dist : (string, int) Hashtbl.t) : fail option * int =
   let fail = ref None and tie = ref None and events = ref 0 in
   if ask h ("RNEW " ^ kind) <> "ok" then (Some { kind = "tie"; detail = desc ^ " :: RNEW failed"; signature = "c17r-rnew" }, 0)
   else begin
@@ -114,8 +114,10 @@ let run_out (h : harness) (kind : string) (ops : oop list) (desc : string) (dist
         | OResolve (alias, topic) ->
           let reply = ask h (Printf.sprintf "RRES %s %s" (match alias with None -> "-" | Some a -> string_of_int a) (hex_s topic)) in
           (* model *)
+          if i = impl_only then (match model_state_after with Some s -> st := s | None -> ());
           let expect =
-            if !model_dead then "panic"
+            if i < impl_only then reply
+            else if !model_dead then "panic"
             else match ores_resolve !st (match alias with None -> None | Some a -> Some (n_of_int a)) (bytes_of_string topic) with
               | Outcome.Ok (s', r) -> st := s'; res_text r
               | Outcome.Panic _ -> model_dead := true; "panic"
@@ -198,7 +200,14 @@ let run_case (h : harness) (c : case) (dist : (string, int) Hashtbl.t) : fail op
   | CFill n ->
     bump dist "outbound-lru-fill";
     let ops = OReset n :: L.init (n + 2) (fun i -> OResolve (None, fill_topic i)) in
-    let (f, e) = run_out h (Printf.sprintf "lru:%d" n) ops desc dist in
+    (* large fills: the first n+1 operations (reset + n distinct topics) run on the implementation
+       under the monitor only; the model resumes from the state that AliasProofs (lru_fill_state) proves
+       is reached: aliases 1..n in insertion order, most recent first *)
+    let big = n > 2000 in
+    let filled = OLru (n_of_int n, n_of_int n, L.rev (L.init n (fun i -> (bytes_of_string (fill_topic i), n_of_int (i + 1))))) in
+    let (f, e) =
+      if big then run_out ~impl_only:(n + 1) ~model_state_after:filled h (Printf.sprintf "lru:%d" n) ops desc dist
+      else run_out h (Printf.sprintf "lru:%d" n) ops desc dist in
     (* keep the description short *)
     ((match f with Some f -> Some { f with detail = (let d = f.detail in
                                                       let cut = find_sub d " :: " in
